@@ -20,4 +20,5 @@ func genAll() {
 	genSync()
 	genHandler()
 	genNetRules()
+	genScripts()
 }
